@@ -909,4 +909,22 @@ theorem carries_caller (k : Kind) (h : Hand) (hh : h.carries k) : h.caller = .ra
   | raw k' w => cases hh; cases w <;> simp [Hand.caller]
   | gone => cases hh
 
+/-! ### re-run histories -/
+
+theorem wf_rerunDag {d : Dag} (wf : WF d) (s : S) (f e : Nat → Bool) : WF (rerunDag d s f e) :=
+  ⟨wf.downSpec, wf.downNodup, wf.noSelf, wf.startNodup, wf.startRoots, wf.rootsStart⟩
+
+/-- every level resets: the restarted tree is properly wired and fresh, whatever state the last run left -/
+theorem nrestart_fresh (t : Tree E) : ∀ ed : List Nat → Edit E, NWF t → (∀ p, (ed p).reset = true) →
+    NWF (nrestart t ed) ∧ Fresh (nrestart t ed) := by
+  induction t with
+  | leaf => intro ed _ _; exact ⟨trivial, trivial⟩
+  | comp d exc s kids ih =>
+    intro ed wf hr
+    obtain ⟨wd, wk⟩ := wf
+    simp only [nrestart]
+    refine ⟨⟨wf_rerunDag wd s _ _, fun k => (ih k _ (wk k) (fun p => hr (k :: p))).1⟩, ?_, fun k =>
+      (ih k _ (wk k) (fun p => hr (k :: p))).2⟩
+    rw [hr []]; rfl
+
 end PwVerif.ExecNest
